@@ -125,6 +125,7 @@ pub fn run(args: &Args) -> Value {
     let mut distinct = std::collections::HashSet::new();
     let mut hist = std::collections::BTreeMap::new();
     let mut total_mut = 0usize;
+    let mut n_l1 = 0usize;
     for si in 0..n_seq {
         let nvars = 1 + rng.below(5) as usize;
         let nbonds = 1 + rng.below(5) as usize;
@@ -146,6 +147,7 @@ pub fn run(args: &Args) -> Value {
             total_mut += 1;
             // expected contents are built from the decisions the callback makes
             let expected: RefCell<Slots> = RefCell::new(before.clone());
+            let declog: RefCell<Vec<(usize, Option<Option<MOp>>)>> = RefCell::new(vec![]);
             let seeds: Vec<u64> = (0..len + 40).map(|_| rng.next()).collect();
             let decide = |p: usize, cur: Option<&FastOp>, allow_remove: bool, allow_new_vars: bool, subvars: Option<&[usize]>| -> Option<Option<FastOp>> {
                 let mut r = SplitMix64::new(seeds[p % seeds.len()] ^ 0xABCD);
@@ -170,6 +172,7 @@ pub fn run(args: &Args) -> Value {
                 if let Some(x) = &res {
                     expected.borrow_mut()[p] = x.clone();
                 }
+                declog.borrow_mut().push((p, res.clone()));
                 res.map(|x| x.map(|o| o.to_fast()))
             };
             let r = catch_unwind(AssertUnwindSafe(|| match kind {
@@ -283,6 +286,25 @@ pub fn run(args: &Args) -> Value {
             }
             distinct.insert(format!("{:?}", s.slots));
             coq.push(snap_coq(nvars, &s));
+            // the per-slot decisions of consecutive mutate_p calls, for the linked-structure model (Model/FastOps.v)
+            if matches!(kind, 0 | 1 | 2 | 5 | 8) {
+                let dl = declog.into_inner();
+                if !dl.is_empty() && dl.windows(2).all(|w| w[1].0 == w[0].0 + 1) {
+                    let a = dl[0].0;
+                    let decs = cq::list(&dl, |(_, d)| cq::opt(d, |x| cq::opt(x, |o| o.coq())));
+                    let fops = format!("(mkFops {} {}%nat {} {} {})",
+                        cq::list(&s.slots.iter().zip(s.links.iter()).collect::<Vec<_>>(), |(o, l)| match (o, l) {
+                            (Some(o), Some(l)) => format!("(Some (mkNode {} {} {} {} {}))", o.coq(), cq::opt(&l.prev_p, |x| format!("{}%nat", x)),
+                                cq::opt(&l.next_p, |x| format!("{}%nat", x)), cq::list(&l.prev_v, pr), cq::list(&l.next_v, pr)),
+                            _ => "None".to_string(),
+                        }),
+                        s.n, cq::opt(&s.p_ends, |(a, b)| format!("({}%nat, {}%nat)", a, b)),
+                        cq::list(&s.var_ends, |e| cq::opt(e, |((a, b), (c, d))| format!("(({}%nat, {}%nat), ({}%nat, {}%nat))", a, b, c, d))),
+                        cq::opt(&s.counters, |c| cq::nats(c)));
+                    coq.push(format!("C11.Mut {}%nat {} {} {}%nat {} {}", nvars, cq::opt(&nb_now, |x| format!("{}%nat", x)), slots_coq(&before), a, decs, fops));
+                    n_l1 += 1;
+                }
+            }
             if (si * 7 + mi) % 397 == 0 {
                 samples.push(json!({"kind": kind, "nvars": nvars, "slots": s.slots.len(), "n": s.n, "counters": with_counters}));
             }
@@ -290,7 +312,7 @@ pub fn run(args: &Args) -> Value {
     }
     oracle_failures.truncate(40);
     let files = crate::write_shards(&args.out, "C11", "C11", &coq, if args.thorough { 800 } else { 250 });
-    json!({"files": files, "evaluations": coq.len(), "distinct_nontrivial": distinct.len(), "mutations": total_mut, "mutation_kinds": hist,
+    json!({"files": files, "evaluations": coq.len(), "distinct_nontrivial": distinct.len(), "mutations": total_mut, "mutate_p_sweeps_replayed_by_linked_model": n_l1, "mutation_kinds": hist,
         "oracle_failures": oracle_failures, "samples": samples,
         "rule": "random sequences of mutate_ps / mutate_subsection (sub-ranges) / mutate_ops / mutate_subsection_ops with sub-variable cursors / mutate_p with prepared and threaded cursors / set_cutoff / new_from_ops on 1-5 variables, up to 20 slots, ops of 1-3 variables, insert / remove / same-variable replace / different-variable replace / different bond; after every mutation the serde snapshot of all links, counts, ends and counters is compared with values derived by scanning the slots"})
 }
